@@ -293,7 +293,7 @@ Definition spec_order (l : list part) : list part := spec_sort (length l) l.
 Definition has_tie (l : list part) : bool := negb (length (nodup Z.eq_dec (map p_start l)) =? length l).
 Definition periods_differ (l : list part) : bool := negb (length (nodup Z.eq_dec (map p_dp l)) <=? 1).
 
-(* (parts names keep) ->
+(* (parts names keep) ->      [keep] is ANDed with the default selection (spw 0, subarray 0), as select(dumps=keep) does
    (status  model  spec)   status 0 = opened, otherwise the error code
    model = (starts segs dp subs spws cat keep0 ts (merged sensors...) (rewritten parts...) (other sensors...) (selected...))
    spec  = (refused? starts ts subs spws cat sub_index spw_index tgt tgt_index state label scan cscan keep0 (other...)) *)
@@ -304,6 +304,7 @@ Definition wire_19 (x : sx) : sx :=
       let names := map (fun n => match n with L [I k; ar] => (k, to_bool ar) | _ => (0%Z, false) end) (to_list names) in
       let keep := to_bools keep in
       let so := spec_order input in
+      let skeep := band keep (spec_keep0 so) in
       let spec :=
         L [of_bool (has_tie input || periods_differ input || (length input =? 0));
            of_Zs (map p_start so); of_Zs (spec_ts so);
@@ -314,11 +315,12 @@ Definition wire_19 (x : sx) : sx :=
            of_Zs (spec_running p_scan so); of_Zs (spec_running p_cscan so);
            of_bools (spec_keep0 so);
            L (map (fun na => match spec_sensor so (fst na) with
-                             | Some l => L [of_Zs l; of_Zs (mask_sel keep l)] | None => L [] end) names)] in
+                             | Some l => L [of_Zs l; of_Zs (mask_sel skeep l)] | None => L [] end) names)] in
       match concat_open input with
       | CErr e => L [I (err_code e); L []; spec]
       | COk m =>
           let ps := m_parts m in
+          let keep := match m_keep0 m with Some k => band keep k | None => keep end in
           L [I 0%Z;
              L [of_Zs (map p_start ps); of_nats (m_segs m); I (m_dp m);
                 of_Zs (m_subs m); of_Zs (m_spws m); of_Zs (m_cat m);
